@@ -146,32 +146,41 @@ def _crc_table():
 
 
 _TZ_LEN = {}
+_TZ_FILE = {}
 
 
-def tz_len(family):
-    """Size of a custom TrustZone preset block of the family: 4 bytes per register of the database's reg_spec file (read directly)."""
-    if family not in _TZ_LEN:
+def tz_len(family, revision="latest"):
+    """Size of a custom TrustZone preset block of (family, revision): 4 bytes per register of the database's reg_spec file (read directly)."""
+    key = (family, revision)
+    if key not in _TZ_LEN:
         import yaml
 
         from spsdk.utils.database import DatabaseManager, get_db
 
         try:
-            path = get_db(family, "latest").get_file_path(DatabaseManager.TZ, "reg_spec")
+            path = get_db(family, revision).get_file_path(DatabaseManager.TZ, "reg_spec")
         except Exception:  # noqa: BLE001 - family without TrustZone data
-            _TZ_LEN[family] = 0
+            _TZ_LEN[key] = 0
             return 0
-        with open(path) as f:
-            data = json.load(f) if path.endswith(".json") else yaml.safe_load(f)
-        _TZ_LEN[family] = 4 * len(data)
-    return _TZ_LEN[family]
+        if path not in _TZ_FILE:
+            with open(path) as f:
+                data = json.load(f) if path.endswith(".json") else yaml.safe_load(f)
+            _TZ_FILE[path] = 4 * len(data)
+        _TZ_LEN[key] = _TZ_FILE[path]
+    return _TZ_LEN[key]
+
+
+def mtz_len(m):
+    return tz_len(m["resolved"], m["revision"])
 
 
 # ------------------------------------------------------------------ the database: compositions and members
-def members(with_predecessors=True):
-    """Every image the database offers: dicts family/target/auth/cls/type/mixins. Predecessor (group alias) names are added as
-    further families (they resolve to one current device)."""
+def members(with_predecessors=True, all_revisions=True):
+    """Every image the database offers: dicts family/revision/target/auth/cls/type/mixins. Predecessor (group alias) names are added as
+    further families (they resolve to one current device); every chip revision of the database is a member of its own
+    (the latest one under the name "latest")."""
     from spsdk.image.mbi.mbi import mbi_get_supported_families
-    from spsdk.utils.database import DatabaseManager, get_db
+    from spsdk.utils.database import DatabaseManager, get_db, get_device
 
     res = []
     fams = list(mbi_get_supported_families())
@@ -183,14 +192,19 @@ def members(with_predecessors=True):
         except Exception:  # noqa: BLE001
             pass
     for name, cur in names:
-        db = get_db(cur, "latest")
-        classes = db.get_dict(DatabaseManager.MBI, "mbi_classes")
-        images = db.get_dict(DatabaseManager.MBI, "images")
-        for target, auths in images.items():
-            for auth, cn in auths.items():
-                d = classes[cn]
-                res.append({"family": name, "resolved": cur, "target": target, "auth": auth, "cls": cn, "image_type": d["image_type"],
-                            "type": IMAGE_TYPES[d["image_type"]], "mixins": [m.replace("Mbi_", "").replace("Mixin", "") for m in d["mixins"]]})
+        dev = get_device(cur)
+        revs = ["latest"]
+        if all_revisions:
+            revs += [r for r in dev.revisions.revision_names() if r != dev.latest_rev]
+        for rev in revs:
+            db = get_db(cur, rev)
+            classes = db.get_dict(DatabaseManager.MBI, "mbi_classes")
+            images = db.get_dict(DatabaseManager.MBI, "images")
+            for target, auths in images.items():
+                for auth, cn in auths.items():
+                    d = classes[cn]
+                    res.append({"family": name, "resolved": cur, "revision": rev, "target": target, "auth": auth, "cls": cn, "image_type": d["image_type"],
+                                "type": IMAGE_TYPES[d["image_type"]], "mixins": [m.replace("Mbi_", "").replace("Mixin", "") for m in d["mixins"]]})
     return res
 
 
@@ -267,6 +281,7 @@ def make_config(m, o, workdir):
     os.makedirs(workdir, exist_ok=True)
     cfg = {
         "family": m["family"],
+        "revision": m.get("revision", "latest"),
         "outputImageExecutionTarget": TARGET_CFG[m["target"]],
         "outputImageAuthenticationType": AUTH_CFG[m["auth"]],
         "masterBootOutputFile": os.path.join(workdir, "mbi.bin"),
@@ -329,7 +344,7 @@ def trust_zone_obj(m, o):
     if tz == "disabled":
         return TrustZone.disabled()
     if tz == "custom":
-        return TrustZone.from_binary(family=m["family"], raw_data=o["tz_data"])
+        return TrustZone.from_binary(family=m["family"], raw_data=o["tz_data"], revision=m.get("revision", "latest"))
     return TrustZone.enabled()
 
 
@@ -389,7 +404,7 @@ def build_ctor(m, o, workdir):
     from spsdk.image.mbi.mbi import create_mbi_class
     from spsdk.image.mbi.mbi_classes import MasterBootImageManifestCrc, MasterBootImageManifestDigest, MultipleImageEntry, MultipleImageTable
 
-    kw = {"app": o["app"], "family": m["family"]}
+    kw = {"app": o["app"], "family": m["family"], "revision": m.get("revision", "latest")}
     if has(m, "LoadAddress") or has(m, "LoadAddressOptional"):
         kw["load_address"] = o.load or 0
     manifest = has(m, "ManifestCrc") or has(m, "ManifestDigest")
@@ -421,7 +436,7 @@ def build_ctor(m, o, workdir):
         for img, dst in o["relocs"]:
             t.add_entry(MultipleImageEntry(img, dst, MultipleImageEntry.LTI_LOAD))
         kw["app_table"] = t
-    cls = create_mbi_class(m["cls"], m["family"])
+    cls = create_mbi_class(m["cls"], m["family"], m.get("revision", "latest"))
     return cls(**kw), kw
 
 
@@ -429,7 +444,7 @@ def parse_image(m, data, o):
     from spsdk.image.mbi.mbi import MasterBootImage
 
     dek = (o.hmac_key or USER_KEY_HEX) if (has(m, "HmacMandatory") or has(m, "Hmac")) else None
-    return MasterBootImage.parse(m["family"], data, dek=dek)
+    return MasterBootImage.parse(m["family"], data, dek=dek, revision=m.get("revision", "latest"))
 
 
 def reattach_keys(parsed, m, o):
